@@ -38,6 +38,7 @@ static int wl_versions_apply(ldb_versions_t *vset, ldb_edit_t *edit, ldb_mutex_t
 #include "table/iterator.h"
 #include "util/env.h"
 #include "u_cmp.h"
+#include "iojournal.h"
 
 #define MAXF 64
 #define MAXL 8192
@@ -97,9 +98,11 @@ static void print_ikey_parts(FILE *out, const ldb_buffer_t *ik) {
 }
 
 /* wrapper around every ldb_versions_apply call made from db_impl.c (foreground open/recovery and background thread) */
+static long long g_first_apply_lognum = -1;
 static int wl_versions_apply(ldb_versions_t *vset, ldb_edit_t *edit, ldb_mutex_t *mu) {
   int rc; size_t i; rb_iter_t it; int first;
   pthread_mutex_lock(&g_bglock);
+  if (g_first_apply_lognum < 0) g_first_apply_lognum = (long long)vset->log_number;
   if (!g_bg) g_bg = open_memstream(&g_bgbuf, &g_bglen);
   for (i = 0; i < edit->new_files.length; i++) {
     const meta_entry_t *en = edit->new_files.items[i];
@@ -138,6 +141,12 @@ static void flush_bg_events(void) {
   pthread_mutex_unlock(&g_bglock);
 }
 
+static void flush_bg_events_discard(void) {
+  pthread_mutex_lock(&g_bglock);
+  if (g_bg) { fflush(g_bg); fclose(g_bg); g_bg = NULL; free(g_bgbuf); g_bgbuf = NULL; g_bglen = 0; }
+  pthread_mutex_unlock(&g_bglock);
+}
+
 static void wait_quiescent(void) {
   if (!g_db) return;
   ldb_mutex_lock(&g_db->mutex);
@@ -165,6 +174,22 @@ static void dump_mem(const char *tag, ldb_memtable_t *mt) {
   ldb_iter_destroy(it);
 }
 
+static void dump_internal(ldb_t *db) {
+  ldb_iter_t *it = ldb_test_internal_iterator(db); int first = 1;
+  for (ldb_iter_first(it); ldb_iter_valid(it); ldb_iter_next(it)) {
+    ldb_slice_t k = ldb_iter_key(it), v2 = ldb_iter_value(it); uint64_t tr;
+    if (k.size < 8) continue;
+    tr = ldb_fixed64_decode((const uint8_t *)k.data + k.size - 8);
+    if (!first) fputc(',', stdout); first = 0;
+    print_hex(stdout, k.data, k.size - 8);
+    printf(":%llu:%d:", (unsigned long long)(tr >> 8), (int)(tr & 0xff));
+    val_token(stdout, v2.data, v2.size);
+  }
+  if (first) fputc('.', stdout);
+  if (ldb_iter_status(it) != LDB_OK) printf(" ITERERR=%d", ldb_iter_status(it));
+  ldb_iter_destroy(it);
+}
+
 static void dump_ver(void) {
   int level; size_t i; ldb_version_t *v;
   if (!g_db) return;
@@ -188,6 +213,7 @@ static void dump_ver(void) {
 static void after_op(void) {
   wait_quiescent();
   flush_bg_events();
+  if (g_journal) jprint_new();
   if (g_structural) { g_structural = 0; dump_ver(); }
 }
 
@@ -270,7 +296,19 @@ static void do_write(const char *ops, int sync) {
   if (!build_batch(&b, ops)) { printf("err bad ops\n"); ldb_batch_clear(&b); return; }
   wo.sync = sync;
   lognum = g_db->logfile_number;
-  rc = ldb_write(g_db, &b, &wo);
+  {
+    uint64_t seq0 = g_db->versions->last_sequence + 1; int cnt = ldb_batch_count(&b); int j0 = nJ, k;
+    jmark("wbegin %llu %d %d", (unsigned long long)seq0, cnt, sync);
+    rc = ldb_write(g_db, &b, &wo);
+    if (g_journal && rc == LDB_OK) {
+      /* the last write(2) on the current log since wbegin completes this batch's record */
+      char lname[64]; snprintf(lname, sizeof(lname), "%06llu.log", (unsigned long long)g_db->logfile_number);
+      pthread_mutex_lock(&g_jm);
+      for (k = nJ - 1; k >= j0; k--) if (J[k].kind == J_WRITE && !strcmp(J[k].a, lname)) { J[k].tag = (long)seq0; break; }
+      pthread_mutex_unlock(&g_jm);
+      jmark("wack %llu %d %llu %d", (unsigned long long)seq0, cnt, (unsigned long long)g_db->logfile_number, sync);
+    } else if (g_journal) jmark("wfail %llu %d %d", (unsigned long long)seq0, cnt, rc);
+  }
   if (g_db->logfile_number != lognum) printf("switch\n");
   if (rc == LDB_OK) { copy = strdup(ops); emit_ops_line(copy); free(copy); }
   else printf("werr %d\n", rc);
@@ -293,20 +331,82 @@ static void handle(char *line) {
     if (g_db) { printf("err already open\n"); return; }
     snprintf(g_dir, sizeof(g_dir), "%s", f[1]);
     if (!parse_opts(f, nf, 2)) { printf("err bad opts\n"); return; }
+    if (g_journal) { snprintf(g_jroot, sizeof(g_jroot), "%s", g_dir); jmark("open-begin"); }
     rc = ldb_open(g_dir, &g_opt, &g_db);
+    if (g_journal) jmark("open-end %d", rc);
     if (rc != LDB_OK) g_db = NULL;
     flush_bg_events();
     printf("open %d cmp=%s\n", rc, g_cmpname);
+    if (g_journal) jprint_new();
     if (g_db) { wait_quiescent(); flush_bg_events(); g_structural = 0; dump_ver(); dump_mem("mem", g_db->mem); }
   } else if (nf == 1 && !strcmp(f[0], "close")) {
     int i;
     if (!g_db) { printf("err not open\n"); return; }
     for (i = 0; i < MAXSNAP; i++) if (g_snap[i]) { ldb_release(g_db, g_snap[i]); g_snap[i] = NULL; }
     wait_quiescent(); flush_bg_events();
+    if (g_journal) jmark("close-begin");
     ldb_close(g_db); g_db = NULL;
+    if (g_journal) jmark("close-end");
     if (g_cache) { ldb_lru_destroy(g_cache); g_cache = NULL; }
     flush_bg_events();
+    if (g_journal) jprint_new();
     printf("close\n");
+  } else if (nf == 2 && !strcmp(f[0], "journal")) {
+    g_journal = !strcmp(f[1], "on");
+    if (!strcmp(f[1], "reset")) jreset();
+  } else if (nf >= 2 && !strcmp(f[0], "fault")) {
+    /* fault <k|-1> [errno] [persistent:0|1] [partial:0|1] [kinds] : the k-th faultable call from now on fails */
+    g_fault_count = 0; g_fault_fired = 0;
+    g_fault_at = atol(f[1]);
+    g_fault_errno = nf > 2 ? atoi(f[2]) : 28;
+    g_fault_persistent = nf > 3 ? atoi(f[3]) : 0;
+    g_fault_partial = nf > 4 ? atoi(f[4]) : 0;
+    snprintf(g_fault_kinds, sizeof(g_fault_kinds), "%s", nf > 5 ? f[5] : "");
+    printf("fault-armed %ld\n", g_fault_at);
+  } else if (nf == 1 && !strcmp(f[0], "faultstat")) {
+    printf("faultstat calls=%ld fired=%ld\n", g_fault_count, g_fault_fired);
+  } else if ((nf == 4 || nf == 5) && !strcmp(f[0], "crashscan")) {
+    /* crashscan <stride> <variants e.g. 0134> <imgdir> [follow]: database must be closed.
+       For every journal prefix n (stride) and image variant: materialise, reopen with the real code, dump all
+       internal entries (`crash` line).  With `follow`: then write three sync batches, close, reopen, dump again
+       (`crash2` line) -- writes made after recovery must win and persist. */
+    int stride = atoi(f[1]), n, vi, saved = g_journal; char *vars = f[2]; int follow = nf == 5;
+    if (g_db) { printf("err crashscan needs a closed db\n"); return; }
+    g_journal = 0;
+    if (stride < 1) stride = 1;
+    g_crng = 88172645463325252ULL ^ (uint64_t)nJ;
+    for (n = 1; n <= nJ; n += stride) {
+      for (vi = 0; vars[vi]; vi++) {
+        int v = vars[vi] - '0', rc; ldb_t *db2 = NULL; ldb_dbopt_t o2 = g_opt;
+        materialise(n, v, f[3]);
+        o2.create_if_missing = 1; o2.error_if_exists = 0; o2.info_log = NULL; o2.block_cache = NULL;
+        g_first_apply_lognum = -1;
+        rc = ldb_open(f[3], &o2, &db2);
+        printf("crash %d %d rc=%d", n, v, rc);
+        if (rc == LDB_OK) {
+          printf(" lognum=%lld lastseq=%llu ", g_first_apply_lognum, (unsigned long long)db2->versions->last_sequence);
+          dump_internal(db2);
+          if (follow) {
+            int k; uint64_t seq0 = db2->versions->last_sequence + 1; int wrc = 0;
+            for (k = 0; k < 3 && wrc == 0; k++) {
+              char kb[64], vb[64]; ldb_slice_t ks, vs; ldb_writeopt_t wo = *ldb_writeopt_default; wo.sync = 1;
+              snprintf(kb, sizeof(kb), "zz-follow-%d", k); snprintf(vb, sizeof(vb), "f%d-%d-%d", n, v, k);
+              ks = ldb_string(kb); vs = ldb_string(vb);
+              wrc = ldb_put(db2, &ks, &vs, &wo);
+            }
+            ldb_close(db2); db2 = NULL;
+            fputc('\n', stdout);
+            rc = ldb_open(f[3], &o2, &db2);
+            printf("crash2 %d %d rc=%d wrc=%d seq0=%llu", n, v, rc, wrc, (unsigned long long)seq0);
+            if (rc == LDB_OK) { printf(" lastseq=%llu ", (unsigned long long)db2->versions->last_sequence); dump_internal(db2); }
+          }
+          if (db2) ldb_close(db2);
+        }
+        fputc('\n', stdout);
+        flush_bg_events_discard();
+      }
+    }
+    g_journal = saved;
   } else if (!g_db) {
     printf("err not open\n");
   } else if ((nf == 3 || nf == 4) && !strcmp(f[0], "put")) {
